@@ -1,7 +1,7 @@
 (* run_line: one case line in, one result line out.  Evaluated by the extracted OCaml driver
    (volume) and inside coqc by vm_compute (cross-check of extraction and driver). *)
 From Coq Require Import Strings.String.
-From BP7 Require Import Base.Prelude Base.Decimal Model.Hex Model.DtnTime Cbor.Item Spec.CrcSpec Spec.Rfc9171 Model.Types Model.Encode Model.Decode Run.Proto Run.BundleIO Run.RunClock Run.RunOps Run.RunEid Run.RunSec Run.RunJson Run.RunCorrupt Run.RunAdmin Run.RunFfi Run.RunFault Run.RunId.
+From BP7 Require Import Base.Prelude Base.Decimal Model.Hex Model.DtnTime Cbor.Item Spec.CrcSpec Spec.Rfc9171 Model.Types Model.Encode Model.Decode Run.Proto Run.BundleIO Run.RunClock Run.RunOps Run.RunEid Run.RunSec Run.RunJson Run.RunCorrupt Run.RunAdmin Run.RunFfi Run.RunFault Run.RunId Run.RunCli.
 
 Definition show_res {A} (show : A -> list byte) (r : res A) : list byte :=
   match r with
@@ -127,6 +127,7 @@ Definition run_cmd (m : ovf_mode) (cmd : tok) (args : list tok) : list byte :=
   else if tok_is cmd "DECRT" then run_decrt args
   else if tok_is cmd "CRC16" then run_crc16 args
   else if tok_is cmd "CRC32" then run_crc32 args
+  else if tok_is cmd "CLI" then run_cli args
   else if tok_is cmd "ID" then run_id args
   else if tok_is cmd "IDPAIR" then run_idpair args
   else if tok_is cmd "IDREF" then run_idref args
